@@ -2,8 +2,14 @@ package checks
 
 import (
 	"github.com/consensys/gnark/logger"
+	"github.com/rs/zerolog"
+	"worldcoin/gnark-mbu/logging"
 )
 
 var Registry = map[string]func(){}
 
-func init() { logger.Disable() }
+func init() {
+	logger.Disable()
+	// silence the repository's own logger (Logger() hands out a pointer to the package variable)
+	*logging.Logger() = logging.Logger().Level(zerolog.Disabled)
+}
